@@ -1,11 +1,12 @@
 //! Component `sys`: the REAL sender shell driven one event-loop arm at a time
-//! (`handle_srt_packet`, `handle_uplink_packet`, `flush_all_batches`, `handle_housekeeping`)
-//! over real loopback UDP sockets, under the virtual clock (C01, C04, C08, C09, C10, C14).
+//! (`handle_srt_packet`, `handle_uplink_packet`, `flush_all_batches`, `handle_housekeeping`, and the
+//! tail of the housekeeping arm after a SIGHUP: `apply_connection_changes`, op `reload`)
+//! over real loopback UDP sockets, under the virtual clock (C01, C04, C05, C08, C09, C10, C11, C14, C19).
 
 use std::collections::{BTreeMap, BTreeSet, HashMap};
 use std::net::{IpAddr, Ipv4Addr, SocketAddr, UdpSocket as StdUdp};
-use std::os::fd::AsRawFd;
-use std::sync::Arc;
+use std::os::fd::{AsRawFd, FromRawFd};
+use std::sync::{Arc, Mutex};
 
 use smallvec::SmallVec;
 use srtla_core::config_snapshot::ConfigSnapshot;
@@ -49,6 +50,32 @@ struct World {
     /// op `deadsock`: per conn id the unconnected socket the harness swapped in (every send on it fails)
     /// and the working socket it replaced
     dead: BTreeMap<u64, (Arc<BatchUdpSocket>, Arc<BatchUdpSocket>)>,
+    /// the `receiver_host:receiver_port` every uplink label names (`127.0.0.1:<port of this socket>`): a
+    /// harness-owned socket nobody ever sends to. `connect_uplink` (op `reload`) connects the sockets of new
+    /// uplinks there; the harness re-points them at a per-link receiver right after the call.
+    reload_rx: StdUdp,
+    reload_port: u16,
+    /// uplinks created so far in this case: canonical conn ids are 1, 2, .. in creation order (the random
+    /// ids `connect_uplink` draws are renamed right after the call)
+    created: u64,
+    /// receivers of the uplinks a reload removed: nothing may ever arrive there again
+    removed_rx: Vec<(u64, StdUdp)>,
+}
+
+/// The address token of an uplink, read off its LABEL - the production format `<host>:<port> via <ip>` with
+/// ip = 127.0.1.<addr>; the label is what `apply_connection_changes` keys on.
+fn link_addr(c: &SrtlaConnection) -> Option<u8> {
+    let (_, ip) = c.label.rsplit_once(" via ")?;
+    let o = ip.parse::<Ipv4Addr>().ok()?.octets();
+    (o[0] == 127 && o[1] == 0 && o[2] == 1 && (1..=254).contains(&o[3])).then_some(o[3])
+}
+
+fn addr_ip(a: u8) -> IpAddr {
+    IpAddr::V4(Ipv4Addr::new(127, 0, 1, a))
+}
+
+fn uplink_label(port: u16, a: u8) -> String {
+    format!("127.0.0.1:{port} via {}", addr_ip(a))
 }
 
 /// The harness owns the `UplinkBinder` it hands to the real code (one per link, stored in that link's
@@ -87,6 +114,9 @@ struct Ghost {
     probe_armed: BTreeSet<u64>,   // conn ids on which a keepalive armed the RTT probe SINCE the link's last reset / sample
     max_cto: u64,                 // largest connection timeout configured so far in this case (>= the 5000 ms default)
     client_seen: bool,            // a non-empty datagram from the SRT client has been handed to the shell
+    tracked: Vec<(u32, u64)>,     // (sequence number, time) of the data packets handed to the shell lately (newest last, <= 512)
+    removed_addrs: BTreeSet<u8>,  // address tokens of the uplinks removed by a reload so far in this case
+    reload_new_ids: BTreeSet<u64>, // conn ids of the uplinks a reload created in this case (coverage counters only)
 }
 
 struct SysComp {
@@ -126,8 +156,9 @@ fn show_link(c: &SrtlaConnection) -> String {
         _ => "high",
     };
     format!(
-        "{} c={} ph={} w={} inf={} log=[{}] hi={} lr={} ls={} lka={} proof={} gated={} lat={} rec={} gev={} pc={} pulled={} mark={} pulls={} cto={} rtt[lks={} wait={} lrm={} kx={} kv={} ki={} jit={} prev={} avgd={} min={} minf={} mins={} masd={} est={}] br[tot={} win={} lu={} cur={}] rc[la={} fc={} est={} grace={}] qm={} qat={} q=[{}] lfl={} regime={} weak={} cct={} ld={} cg[nak={} lnak={} lincr={} fr={} frs={} burst={} bstart={}]",
+        "{}@{} c={} ph={} w={} inf={} log=[{}] hi={} lr={} ls={} lka={} proof={} gated={} lat={} rec={} gev={} pc={} pulled={} mark={} pulls={} cto={} rtt[lks={} wait={} lrm={} kx={} kv={} ki={} jit={} prev={} avgd={} min={} minf={} mins={} masd={} est={}] br[tot={} win={} lu={} cur={}] rc[la={} fc={} est={} grace={}] qm={} qat={} q=[{}] lfl={} regime={} weak={} cct={} ld={} cg[nak={} lnak={} lincr={} fr={} frs={} burst={} bstart={}]",
         c.conn_id,
+        link_addr(c).map_or_else(|| "?".to_string(), |a| a.to_string()),
         show_bool(c.connected),
         show_phase(&c.phase),
         c.window,
@@ -236,13 +267,16 @@ impl World {
     }
 
     fn show(&self) -> String {
+        let mut keys: Vec<u64> = self.io.keys().copied().collect();
+        keys.sort_unstable();
         format!(
-            "sys[last={} ck={} afa={} fail={} fb={}] {} | {}",
+            "sys[last={} ck={} afa={} fail={} fb={} io={}] {} | {}",
             show_opt(self.last_selected),
             show_bool(self.last_client.is_some()),
             show_opt(self.all_failed_at),
             show_list(&self.fail_pending),
             show_list(&self.bind_fail),
+            show_list(&keys),
             self.show_reg(),
             self.links.iter().map(show_link).collect::<Vec<_>>().join(" | ")
         )
@@ -682,6 +716,9 @@ impl SysComp {
         let mut io: ConnIoMap = HashMap::new();
         let mut receivers = BTreeMap::new();
         let mut bind_refusals = BTreeMap::new();
+        let reload_rx = StdUdp::bind("127.0.0.1:0").unwrap();
+        reload_rx.set_nonblocking(true).unwrap();
+        let reload_port = reload_rx.local_addr().unwrap().port();
         for i in 0..n {
             let id = (i + 1) as u64;
             let recv = StdUdp::bind("127.0.0.1:0").unwrap();
@@ -698,7 +735,9 @@ impl SysComp {
             io.insert(id, ConnIo { socket, binder: refusing_binder(refusals.clone()), remote });
             bind_refusals.insert(id, refusals);
             receivers.insert(id, recv);
-            links.push(SrtlaConnection::new_registering(id, format!("l{i}"), IpAddr::V4(Ipv4Addr::new(127, 0, 0, 1)), now));
+            // start-up link i: conn id i + 1, address token i + 1 (label in the production format)
+            let a = (i + 1).min(254) as u8;
+            links.push(SrtlaConnection::new_registering(id, uplink_label(reload_port, a), addr_ip(a), now));
         }
         let mut reg = SrtlaRegistrationManager::new();
         reg.srtla_id = id_from_seed(seed, 0);
@@ -734,6 +773,10 @@ impl SysComp {
             bind_fail: Vec::new(),
             bind_refusals,
             dead: BTreeMap::new(),
+            reload_rx,
+            reload_port,
+            created: n as u64,
+            removed_rx: Vec::new(),
         });
         self.g = Ghost::default();
     }
@@ -834,6 +877,11 @@ impl Component for SysComp {
          replies, REG_ERR / REG_NGP mid-stream), uplink-channel backlogs up to 100 datagrams, link silence past the \
          timeout, send-failure injection, failed socket re-creation on reconnect (binder refusals, 1..7 in a row: back-off table up to the 120 s cap), config changes (mode, quality, guard, thresholds, timeout), critical windows, \
          weak / loss-degraded / CC-target stamps, injected window vectors on the boundaries of every window rule. \
+         Every case with index 6 mod 8 is a reload case: 5..10 uplink-set reloads (the real apply_connection_changes, \
+         harness-tracked link list, addresses 1..9) in a running session - the selected uplink removed with queued \
+         datagrams, an uplink removed with packets in flight, reloads in the middle of the REG1 / REG2 handshake, \
+         uplinks added and brought up, removed addresses re-added, same / permuted / duplicated lists, all but one \
+         removed, refused creations retried later, datagrams addressed to removed conn ids. \
          Thorough tier: cases up to 450 steps. Non-trivial: registration completed and at least one datagram was put \
          on the wire."
     }
@@ -880,6 +928,7 @@ impl Component for SysComp {
         }
         let out = self.exec_op(toks, mon);
         self.mon_c02(mon, toks);
+        self.mon_link_set(mon, toks);
         if self.unmodelled { "unmodelled".into() } else { out }
     }
 
@@ -958,6 +1007,15 @@ impl SysComp {
         }
         let seed = SEED.with(|s| s.get());
         let seed_probe = id_from_seed(seed, 101);
+
+        // ---- the tail of the housekeeping arm after a SIGHUP: own execution path, own monitors (the generic
+        // monitors align the pre- and post-state of the links by INDEX, which a reload breaks)
+        if let ["reload", now, addrs, fails] = toks {
+            let (Ok(now), Some(addrs), Some(fails)) = (now.parse::<u64>(), parse_addr_list(addrs), parse_addr_list(fails)) else {
+                return "bad-op".into();
+            };
+            return self.reload_op(now, &addrs, &fails, &seed_probe, mon);
+        }
 
         // ---- parse
         enum Op {
@@ -1094,6 +1152,12 @@ impl SysComp {
         let pre_has_connected = self.w.as_ref().unwrap().reg.verif_state().has_connected;
         let pre_client_known = self.w.as_ref().unwrap().last_client.is_some();
         let cfg = self.w.as_ref().unwrap().cfg;
+        // a datagram whose conn id names no current uplink (the uplink was removed by a reload while the datagram
+        // sat in the channel): the whole observable state before the arm
+        let pre_show_unknown_link: Option<String> = match &parsed {
+            Op::Uplink(_, cid, _) | Op::Burst(_, cid, _, _) if !pre_ids.contains(cid) => Some(self.w.as_ref().unwrap().show()),
+            _ => None,
+        };
 
         // ---- execute on the real shell
         verif_clock::set(Some(now));
@@ -1197,12 +1261,367 @@ impl SysComp {
         let wire: Vec<(u64, Vec<u8>)> = wire.into_iter().map(|(id, d)| (id, self.canon_wire(&seed_probe, &d))).collect();
 
         // ---- monitors
+        if let Some(pre_show) = &pre_show_unknown_link {
+            mon.count("uplink-datagram-for-unknown-conn-id");
+            let post_show = self.w.as_ref().unwrap().show();
+            if !wire.is_empty() || !client.is_empty() || *pre_show != post_show {
+                mon.fail("C19", "sys-datagram-for-removed-uplink-not-ignored", format!("`{}` names a conn id no current uplink has (ids {pre_ids:?}), yet it put {} datagram(s) on uplink sockets, {} on the client socket, state changed: {}", &op[..op.len().min(60)], wire.len(), client.len(), *pre_show != post_show));
+            }
+        }
         self.monitors(&parsed_kind(&parsed), now, &pre, &pre_ids, &pre_fail, &pre_bind_fail, pre_has_connected, pre_client_known, &cfg, &wire, &client, mon, &op);
 
         let w = self.w.as_ref().unwrap();
         let ws: Vec<String> = wire.iter().map(|(id, d)| format!("{id}:{}", to_hex(d))).collect();
         let cs: Vec<String> = client.iter().map(|d| to_hex(d)).collect();
         format!("wire=[{}] client=[{}] err={} | {}", ws.join(","), cs.join(","), show_bool(hk_err), w.show())
+    }
+}
+
+// ------------------------------------------------------------------------------------------ op `reload`
+
+/// `parseNatList` of the model driver for address tokens: `-` = the empty list, else comma-separated
+/// decimals; every token must be 1..=254 (the last octet of 127.0.1.<addr>).
+fn parse_addr_list(s: &str) -> Option<Vec<u8>> {
+    if s == "-" {
+        return Some(Vec::new());
+    }
+    s.split(',')
+        .map(|t| {
+            if t.is_empty() || t.len() > 18 || !t.bytes().all(|b| b.is_ascii_digit()) {
+                return None;
+            }
+            let v: u64 = t.parse().ok()?;
+            (1..=254).contains(&v).then_some(v as u8)
+        })
+        .collect()
+}
+
+/// What the reload monitors compare: one record per link, taken before and after the call.
+struct LinkSnap {
+    id: u64,
+    addr: Option<u8>,
+    dump: String,
+    label: String,
+    local_ip: IpAddr,
+    /// identity of the socket the I/O map holds for the link: (Arc pointer, fd)
+    sock: Option<(usize, i32)>,
+    queue: Vec<Vec<u8>>,
+    in_flight: i32,
+}
+
+fn link_snap(c: &SrtlaConnection, io: &ConnIoMap) -> LinkSnap {
+    LinkSnap {
+        id: c.conn_id,
+        addr: link_addr(c),
+        dump: show_link(c),
+        label: c.label.clone(),
+        local_ip: c.local_ip,
+        sock: io.get(&c.conn_id).map(|x| (Arc::as_ptr(&x.socket) as usize, x.socket.as_raw_fd())),
+        queue: c.batch_sender.verif_queue().into_iter().map(|(d, _, _)| d).collect(),
+        in_flight: c.in_flight_packets,
+    }
+}
+
+/// The fields (space-separated tokens of the dump) in which two link dumps differ.
+fn dump_diff(a: &str, b: &str) -> String {
+    let (ta, tb): (Vec<&str>, Vec<&str>) = (a.split(' ').collect(), b.split(' ').collect());
+    if ta.len() != tb.len() {
+        return format!("`{a}` -> `{b}`");
+    }
+    let d: Vec<String> = ta.iter().zip(tb.iter()).filter(|(x, y)| x != y).map(|(x, y)| format!("{x} -> {y}")).collect();
+    d.join(", ")
+}
+
+impl SysComp {
+    /// After EVERY op: each link's label has the production shape `127.0.0.1:<receiver port> via 127.0.1.<addr>`
+    /// and agrees with its `local_ip` (the printed address token is read off the label); nothing has arrived on
+    /// the receiver of an uplink a reload removed, nor on the configured receiver address itself (the harness
+    /// re-points every uplink socket at a per-link receiver).
+    fn mon_link_set(&self, mon: &mut Mon, toks: &[&str]) {
+        let Some(w) = self.w.as_ref() else { return };
+        let op = || toks.iter().map(|t| &t[..t.len().min(40)]).collect::<Vec<_>>().join(" ");
+        for c in &w.links {
+            let ok = link_addr(c).is_some_and(|a| c.label == uplink_label(w.reload_port, a) && c.local_ip == addr_ip(a));
+            if !ok {
+                mon.fail("C19", "sys-label-format", format!("link {}: label `{}` / local_ip {} is not `127.0.0.1:{} via 127.0.1.<addr>` with the same address after `{}`", c.conn_id, c.label, c.local_ip, w.reload_port, op()));
+            }
+        }
+        for (id, rx) in &w.removed_rx {
+            let got = drain(rx);
+            if let Some(d) = got.first() {
+                mon.fail("C19", "sys-datagram-to-removed-uplink", format!("{} datagram(s) (first: {}) were sent on the socket of uplink {id}, which a reload removed, by `{}`", got.len(), to_hex(&d[..d.len().min(24)]), op()));
+            }
+        }
+        let got = drain(&w.reload_rx);
+        if let Some(d) = got.first() {
+            mon.fail("C19", "sys-datagram-to-removed-uplink", format!("{} datagram(s) (first: {}) were sent by `{}` on a socket that is not the socket of any current uplink (it is still connected to the configured receiver address, where `connect_uplink` left it)", got.len(), to_hex(&d[..d.len().min(24)]), op()));
+        }
+    }
+
+    /// `reload <now> <addrs> <fails>`: the REAL `apply_connection_changes` (the tail of the housekeeping arm
+    /// after a SIGHUP) with the desired address list 127.0.1.<a> for a in `addrs` and a binder that refuses the
+    /// addresses in `fails`. New uplinks get the next canonical conn ids and their own harness receiver.
+    fn reload_op(&mut self, now: u64, addrs: &[u8], fails: &[u8], seed_probe: &[u8; 256], mon: &mut Mon) -> String {
+        let op = format!("reload {now} {} {}", join_list(addrs), join_list(fails));
+        // ---- pre-state
+        let (before, pre_last, pre_reg, pre_pending, trk_before, pre_keys) = {
+            let w = self.w.as_ref().unwrap();
+            let before: Vec<LinkSnap> = w.links.iter().map(|c| link_snap(c, &w.io)).collect();
+            let trk: Vec<(Option<u64>, Option<u64>)> = self.g.tracked.iter().map(|(s, t)| (w.trk.get(*s, now), w.trk.get(*s, *t))).collect();
+            let keys: BTreeSet<u64> = w.io.keys().copied().collect();
+            (before, w.last_selected, w.show_reg(), w.reg.verif_state().pending_reg2_idx, trk, keys)
+        };
+        let before_ids: BTreeSet<u64> = before.iter().map(|l| l.id).collect();
+
+        // ---- the real call
+        let refused: Vec<IpAddr> = fails.iter().map(|a| addr_ip(*a)).collect();
+        let attempts: Arc<Mutex<Vec<IpAddr>>> = Arc::default();
+        let log = attempts.clone();
+        // harness-owned binder: refuses the addresses in `fails`, leaves every other socket unbound (as
+        // `refusing_binder` does: `connect` to the loopback receiver then picks 127.0.0.1 and an ephemeral port)
+        let binder: Arc<dyn UplinkBinder> = Arc::new(CallbackBinder(move |_fd: std::os::fd::RawFd, ip: IpAddr| -> std::io::Result<()> {
+            log.lock().unwrap().push(ip);
+            if refused.contains(&ip) { Err(std::io::Error::other("verif: interface gone")) } else { Ok(()) }
+        }));
+        let new_ips: Vec<IpAddr> = addrs.iter().map(|a| addr_ip(*a)).collect();
+        verif_clock::set(Some(now));
+        {
+            let w = self.w.as_mut().unwrap();
+            let mut links: SmallVec<SrtlaConnection, 4> = SmallVec::from_vec(std::mem::take(&mut w.links));
+            let port = w.reload_port;
+            self.rt.block_on(apply_connection_changes(&mut links, &mut w.io, &new_ips, "127.0.0.1", port, &mut w.last_selected, &mut w.trk, &binder));
+            w.links = links.into_vec();
+        }
+        verif_clock::set(None);
+        let attempts: Vec<IpAddr> = std::mem::take(&mut *attempts.lock().unwrap());
+
+        // ---- every NEW uplink (conn id not present before), in order: canonical id instead of the random one
+        // (nothing else holds the id yet), its own harness receiver (the real socket is re-pointed at it by a
+        // second `connect` on the same fd, `io.remote` follows so that `reconnect_uplink` connects there too),
+        // its own refusing binder
+        {
+            let _guard = self.rt.enter();
+            let w = self.w.as_mut().unwrap();
+            for k in 0..w.links.len() {
+                let rid = w.links[k].conn_id;
+                if before_ids.contains(&rid) {
+                    continue;
+                }
+                w.created += 1;
+                let cid = w.created;
+                w.links[k].conn_id = cid;
+                self.g.reload_new_ids.insert(cid);
+                let Some(mut io) = w.io.remove(&rid) else {
+                    mon.fail("C19", "sys-added-set", format!("new uplink {} (canonical id {cid}) has no entry in the I/O map after `{op}`", w.links[k].label));
+                    continue;
+                };
+                let recv = StdUdp::bind("127.0.0.1:0").unwrap();
+                recv.set_nonblocking(true).unwrap();
+                let _ = socket2::SockRef::from(&recv).set_recv_buffer_size(2 << 20);
+                let remote = recv.local_addr().unwrap();
+                let sock = std::mem::ManuallyDrop::new(unsafe { socket2::Socket::from_raw_fd(io.socket.as_raw_fd()) });
+                if sock.connect(&remote.into()).is_err() {
+                    mon.count("reload-repoint-failed");
+                }
+                io.remote = remote;
+                let refusals = Arc::new(AtomicU32::new(0));
+                io.binder = refusing_binder(refusals.clone());
+                w.io.insert(cid, io);
+                w.bind_refusals.insert(cid, refusals);
+                w.receivers.insert(cid, recv);
+            }
+        }
+
+        // ---- REMOVED uplinks: their receivers go to the side list (nothing may arrive there any more), their
+        // reader tasks are stopped (`sync_readers` in the real arm); failure injections keyed by their ids stay
+        let listed = |l: &LinkSnap| l.addr.is_some_and(|a| addrs.contains(&a));
+        let after_ids: BTreeSet<u64> = self.w.as_ref().unwrap().links.iter().map(|c| c.conn_id).collect();
+        let removed: Vec<&LinkSnap> = before.iter().filter(|l| !after_ids.contains(&l.id)).collect();
+        {
+            let w = self.w.as_mut().unwrap();
+            for r in &removed {
+                if let Some(rx) = w.receivers.remove(&r.id) {
+                    w.removed_rx.push((r.id, rx));
+                }
+                if let Some(h) = w.readers.remove(&r.id) {
+                    h.handle.abort();
+                }
+                w.dead.remove(&r.id);
+                // C01 accounting: a datagram queued on an uplink that is no longer listed is discarded with it
+                if !listed(r) {
+                    for d in &r.queue {
+                        if let Some(t) = self.g.tag_of.get(d) {
+                            self.g.lost_ok.insert(*t);
+                            mon.count("c01-queued-discarded-by-reload");
+                        }
+                    }
+                }
+            }
+        }
+        let (wire, client) = self.w.as_mut().unwrap().capture();
+        let wire: Vec<(u64, Vec<u8>)> = wire.into_iter().map(|(id, d)| (id, self.canon_wire(seed_probe, &d))).collect();
+
+        // ---- monitors (C19 apply clauses, C11 anchor, C05 tracker, C01 accounting above)
+        let w = self.w.as_ref().unwrap();
+        let g = &mut self.g;
+        let after: Vec<LinkSnap> = w.links.iter().map(|c| link_snap(c, &w.io)).collect();
+        mon.count("reload");
+        if !wire.is_empty() || !client.is_empty() {
+            mon.fail("C19", "sys-reload-sent", format!("`{op}` put {} datagram(s) on uplink sockets and {} on the client socket", wire.len(), client.len()));
+        }
+        // survivors: still there, byte-identical record, same socket
+        let mut surv_pos: Vec<usize> = Vec::new();
+        for b in before.iter().filter(|l| listed(l)) {
+            match after.iter().position(|a| a.id == b.id) {
+                None => mon.fail("C19", "sys-survivor-changed", format!("uplink {}@{} is in the new address list {addrs:?} but `{op}` removed it", b.id, show_opt(b.addr))),
+                Some(p) => {
+                    surv_pos.push(p);
+                    let a = &after[p];
+                    if a.dump != b.dump || a.label != b.label || a.local_ip != b.local_ip {
+                        mon.fail("C19", "sys-survivor-changed", format!("surviving uplink {}@{} changed by `{op}`: {} (label `{}` -> `{}`, local_ip {} -> {})", b.id, show_opt(b.addr), dump_diff(&b.dump, &a.dump), b.label, a.label, b.local_ip, a.local_ip));
+                    }
+                    if a.sock != b.sock || b.sock.is_none() {
+                        mon.fail("C19", "sys-survivor-changed", format!("socket of surviving uplink {}@{} changed by `{op}`: (Arc, fd) {:?} -> {:?}", b.id, show_opt(b.addr), b.sock, a.sock));
+                    }
+                }
+            }
+        }
+        if !surv_pos.windows(2).all(|p| p[0] < p[1]) {
+            mon.fail("C19", "sys-survivor-order", format!("`{op}`: the surviving uplinks sit at positions {surv_pos:?} (in their old order): relative order not kept"));
+        }
+        if let Some(f) = after.iter().position(|a| !before_ids.contains(&a.id)) {
+            if after[f..].iter().any(|a| before_ids.contains(&a.id)) {
+                mon.fail("C19", "sys-survivor-order", format!("`{op}`: a new uplink sits at position {f}, before a surviving one (ids after: {:?})", after.iter().map(|a| a.id).collect::<Vec<_>>()));
+            }
+        }
+        // removed: gone, with their I/O half
+        for b in before.iter().filter(|l| !listed(l)) {
+            if after_ids.contains(&b.id) {
+                mon.fail("C19", "sys-removed-set", format!("uplink {}@{} is not in the new address list {addrs:?} but is still there after `{op}`", b.id, show_opt(b.addr)));
+            }
+            if w.io.contains_key(&b.id) {
+                mon.fail("C19", "sys-removed-set", format!("uplink {}@{} is not in the new address list {addrs:?} but its I/O entry is still in the map after `{op}`", b.id, show_opt(b.addr)));
+            }
+        }
+        // added: exactly the first occurrences of the listed addresses no link carried before the call, minus
+        // the refused ones, in list order, one connect attempt each, each a fresh registering link
+        let carried: Vec<u8> = before.iter().filter_map(|l| l.addr).collect();
+        let mut needed: Vec<u8> = Vec::new();
+        for a in addrs {
+            if !carried.contains(a) && !needed.contains(a) {
+                needed.push(*a);
+            }
+        }
+        let want_added: Vec<Option<u8>> = needed.iter().copied().filter(|a| !fails.contains(a)).map(Some).collect();
+        let got_added: Vec<Option<u8>> = after.iter().filter(|a| !before_ids.contains(&a.id)).map(|a| a.addr).collect();
+        if got_added != want_added {
+            mon.fail("C19", "sys-added-set", format!("`{op}` on uplinks carrying {carried:?}: new uplinks for addresses {got_added:?}, expected {want_added:?} (in this order)"));
+        }
+        let want_attempts: Vec<IpAddr> = needed.iter().map(|a| addr_ip(*a)).collect();
+        if attempts != want_attempts {
+            mon.fail("C19", "sys-added-set", format!("`{op}` on uplinks carrying {carried:?}: connect attempts for {attempts:?}, expected one each for {want_attempts:?}"));
+        }
+        for c in w.links.iter().filter(|c| !before_ids.contains(&c.conn_id)) {
+            let fresh = !c.connected
+                && matches!(c.phase, LinkPhase::Registering)
+                && c.window == 20000
+                && c.in_flight_packets == 0
+                && c.verif_packet_log().is_empty()
+                && c.batch_sender.queued_count() == 0
+                && c.last_received.is_none()
+                && c.reconnection.startup_grace_deadline_ms == now + 5000
+                && c.reconnection.connection_established_ms == 0
+                && w.io.contains_key(&c.conn_id);
+            // the start-up constructor on the same (id, label, address, clock) is the reference for everything else
+            let reference = link_addr(c).map(|a| show_link(&SrtlaConnection::new_registering(c.conn_id, uplink_label(w.reload_port, a), addr_ip(a), now)));
+            if !fresh || reference.as_deref() != Some(&show_link(c)) {
+                mon.fail("C19", "sys-added-set", format!("new uplink {} is not a fresh registering link after `{op}` (io entry: {}): {}", c.conn_id, w.io.contains_key(&c.conn_id), match &reference {
+                    Some(r) => dump_diff(r, &show_link(c)),
+                    None => show_link(c),
+                }));
+            }
+        }
+        // I/O map keys = conn ids of the links
+        let keys: BTreeSet<u64> = w.io.keys().copied().collect();
+        if pre_keys == before_ids && keys != after_ids {
+            mon.fail("C19", "sys-io-keys", format!("after `{op}` the I/O map holds keys {keys:?}, the uplinks have conn ids {after_ids:?}"));
+        }
+        // registration manager untouched
+        if w.show_reg() != pre_reg {
+            mon.fail("C19", "sys-reload-touched-registration", format!("`{op}`: registration manager {pre_reg} -> {}", w.show_reg()));
+        }
+        // C11: the remembered previous selection is forgotten iff the vector shifted
+        if !removed.is_empty() {
+            if w.last_selected.is_some() {
+                mon.fail("C11", "sys-anchor-after-reload", format!("`{op}` removed uplinks {:?} but the previous selection is still index {:?} (was {pre_last:?}): it now names a different uplink or none", removed.iter().map(|r| r.id).collect::<Vec<_>>(), w.last_selected));
+            }
+        } else if w.last_selected != pre_last {
+            mon.fail("C11", "sys-anchor-after-reload", format!("`{op}` removed nothing but the previous selection changed {pre_last:?} -> {:?}", w.last_selected));
+        }
+        // C05: no tracker entry names a removed uplink; entries naming a survivor (or nobody) are unchanged
+        let removed_ids: BTreeSet<u64> = removed.iter().map(|r| r.id).collect();
+        for (k, (sq, t)) in g.tracked.iter().enumerate() {
+            let post = (w.trk.get(*sq, now), w.trk.get(*sq, *t));
+            let pre = trk_before[k];
+            for (b, a, at) in [(pre.0, post.0, now), (pre.1, post.1, *t)] {
+                if let Some(id) = a {
+                    if removed_ids.contains(&id) {
+                        mon.fail("C05", "sys-tracker-names-removed-uplink", format!("after `{op}` the tracker still answers {id} (a removed uplink) for sequence number {sq} at time {at}"));
+                    }
+                }
+                match b {
+                    Some(id) if removed_ids.contains(&id) => mon.count("reload-tracker-entry-of-removed-uplink"),
+                    _ => {
+                        if a != b {
+                            mon.fail("C05", "sys-tracker-names-removed-uplink", format!("`{op}` changed the tracker's answer for sequence number {sq} at time {at} from {b:?} to {a:?} although {b:?} is not a removed uplink"));
+                        } else if b.is_some() {
+                            mon.count("reload-tracker-entry-of-survivor-kept");
+                        }
+                    }
+                }
+            }
+        }
+        // ---- coverage
+        let removed_idx: Vec<usize> = before.iter().enumerate().filter(|(_, l)| !after_ids.contains(&l.id)).map(|(i, _)| i).collect();
+        if pre_last.is_some_and(|i| removed_idx.contains(&i)) {
+            mon.count("reload-removed-selected");
+        }
+        if removed.iter().any(|r| !r.queue.is_empty()) {
+            mon.count("reload-removed-with-queue");
+        }
+        if removed.iter().any(|r| r.in_flight > 0) {
+            mon.count("reload-removed-with-inflight");
+        }
+        if pre_pending.is_some_and(|p| removed_idx.iter().any(|i| *i <= p)) {
+            mon.count("reload-removed-pending-registration");
+        }
+        if !got_added.is_empty() {
+            mon.count("reload-added");
+        }
+        if got_added.iter().flatten().any(|a| g.removed_addrs.contains(a)) {
+            mon.count("reload-readded-address");
+        }
+        if removed.is_empty() && needed.is_empty() {
+            mon.count("reload-same-list");
+        }
+        if !removed.is_empty() && after.len() == 1 {
+            mon.count("reload-all-but-one");
+        }
+        if needed.iter().any(|a| fails.contains(a)) {
+            mon.count("reload-creation-failed");
+        }
+        if !removed.is_empty() {
+            mon.count("reload-removed");
+        }
+        for r in &removed {
+            if let Some(a) = r.addr {
+                g.removed_addrs.insert(a);
+            }
+        }
+
+        let ws: Vec<String> = wire.iter().map(|(id, d)| format!("{id}:{}", to_hex(d))).collect();
+        let cs: Vec<String> = client.iter().map(|d| to_hex(d)).collect();
+        format!("wire=[{}] client=[{}] err=0 | {}", ws.join(","), cs.join(","), w.show())
     }
 }
 
@@ -1341,6 +1760,9 @@ impl SysComp {
                     }
                     v.push(*t);
                     mon.count("wire-data");
+                    if g.reload_new_ids.contains(id) {
+                        mon.count("reload-new-uplink-carried-data");
+                    }
                 }
                 None => {
                     // the datagram about to be accepted by this very op is registered below; check after
@@ -1541,6 +1963,9 @@ impl SysComp {
             // clean rejoin on REG3
             if kind == Kind::Uplink && !pre[i].connected && c.connected {
                 mon.count("reg3-connected");
+                if g.reload_new_ids.contains(&c.conn_id) {
+                    mon.count("reload-new-uplink-registered");
+                }
                 let clean = c.in_flight_packets == 0 && matches!(c.phase, LinkPhase::Warming { .. }) && c.verif_packet_log().is_empty() && c.batch_sender.queued_count() == 0;
                 let injected = g.win_injected.remove(&c.conn_id);
                 if !clean || (pre[i].established != 0 && c.window != 20000 && !injected) {
@@ -1596,6 +2021,14 @@ impl SysComp {
                 g.accepted.push(data.clone());
                 g.tag_of.insert(data.clone(), tag);
                 let is_data = get_srt_sequence_number(&data).is_some();
+                if let Some(sq) = get_srt_sequence_number(&data) {
+                    // ghost for the reload monitors (C05): the numbers the shell was handed lately
+                    g.tracked.retain(|(x, _)| *x != sq);
+                    g.tracked.push((sq, now));
+                    if g.tracked.len() > 512 {
+                        g.tracked.remove(0);
+                    }
+                }
                 // where did it go: on the wire in this op, or in some queue now
                 let mut holders: Vec<usize> = Vec::new();
                 for (i, c) in w.links.iter().enumerate() {
@@ -2123,6 +2556,11 @@ fn gen_case(rng: &mut Rng, tier: Tier, idx: usize) -> Vec<String> {
     }
     if idx % 43 == 29 {
         return gen_idle_session_timeout(rng);
+    }
+    if idx % 8 == 6 {
+        // uplink-set reloads (SIGHUP) in a running session; tested AFTER the special scenarios above, so it takes
+        // no index from them (within the first 120 cases none of theirs is 6 mod 8 anyway)
+        return gen_reload(rng, tier);
     }
     let n = rng.range(1, 4) as usize;
     let seed = rng.below(1 << 30);
@@ -2888,6 +3326,717 @@ fn gen_case(rng: &mut Rng, tier: Tier, idx: usize) -> Vec<String> {
     ops.push(format!("flush {}", now + 15));
     let _ = up;
     ops
+}
+
+/// One uplink as the reload generator tracks it (the generator keeps the link list itself: every
+/// `uplink` / `failnext` / `failbind` op names an id consistently with it).
+#[derive(Clone)]
+struct GenLink {
+    id: u64,
+    addr: u8,
+    up: bool,
+    /// creation time / time of the last registration attempt of a link that was never registered
+    born: u64,
+    /// torn down after it had been registered: the receiver answers its next re-registration
+    rereg: bool,
+}
+
+struct RlGen {
+    ops: Vec<String>,
+    now: u64,
+    next_hk: u64,
+    last_flush: u64,
+    links: Vec<GenLink>,
+    next_id: u64,
+    next_addr: u8,
+    /// (conn id, address) of the uplinks removed so far
+    gone: Vec<(u64, u8)>,
+    seq: u32,
+    counter: u64,
+    sent: Vec<u32>,
+    reg2: Vec<u8>,
+}
+
+impl RlGen {
+    fn list(&self) -> Vec<u8> {
+        self.links.iter().map(|l| l.addr).collect()
+    }
+
+    fn list_without(&self, idx: usize) -> Vec<u8> {
+        self.links.iter().enumerate().filter(|(i, _)| *i != idx).map(|(_, l)| l.addr).collect()
+    }
+
+    /// An address no link has carried so far in this case (tokens up to 9).
+    fn fresh_addr(&mut self) -> Option<u8> {
+        if self.next_addr <= 9 {
+            self.next_addr += 1;
+            Some(self.next_addr - 1)
+        } else {
+            None
+        }
+    }
+
+    /// An address a removed uplink carried and no current uplink carries.
+    fn gone_addr(&self, rng: &mut Rng) -> Option<u8> {
+        let c: Vec<u8> = self.gone.iter().map(|g| g.1).filter(|a| !self.links.iter().any(|l| l.addr == *a)).collect();
+        if c.is_empty() { None } else { Some(*rng.pick(&c)) }
+    }
+
+    fn up_idx(&self) -> Vec<usize> {
+        (0..self.links.len()).filter(|i| self.links[*i].up).collect()
+    }
+
+    /// Emit `reload` and apply it to the tracked list: links whose address is listed survive in order, the first
+    /// occurrences of the listed addresses no link carried are created (next canonical ids) unless refused.
+    /// Returns the ids of the removed uplinks.
+    fn reload(&mut self, list: &[u8], fails: &[u8]) -> Vec<u64> {
+        debug_assert!(!list.is_empty());
+        self.ops.push(format!("reload {} {} {}", self.now, join_list(list), join_list(fails)));
+        let carried: Vec<u8> = self.list();
+        let mut removed = Vec::new();
+        for l in self.links.iter().filter(|l| !list.contains(&l.addr)) {
+            self.gone.push((l.id, l.addr));
+            removed.push(l.id);
+        }
+        self.links.retain(|l| list.contains(&l.addr));
+        let mut seen: Vec<u8> = Vec::new();
+        for a in list {
+            if carried.contains(a) || seen.contains(a) {
+                continue;
+            }
+            seen.push(*a);
+            if !fails.contains(a) {
+                self.links.push(GenLink { id: self.next_id, addr: *a, up: false, born: self.now, rereg: false });
+                self.next_id += 1;
+            }
+        }
+        removed
+    }
+
+    fn uplink(&mut self, t: u64, id: u64, b: &[u8]) {
+        self.ops.push(format!("uplink {t} {id} {}", to_hex(b)));
+    }
+
+    /// `k` fresh data packets from the client at the current instant; returns their sequence numbers.
+    fn client_data(&mut self, rng: &mut Rng, lo: u64, hi: u64) -> Vec<u32> {
+        let k = rng.range(lo, hi);
+        let mut v = Vec::new();
+        for _ in 0..k {
+            let len = *rng.pick(&[24usize, 32, 64, 188, 1316]);
+            self.ops.push(format!("client {} {}", self.now, to_hex(&data_packet(self.seq, false, len, self.counter, rng))));
+            self.counter += 1;
+            v.push(self.seq);
+            self.sent.push(self.seq);
+            self.seq = (self.seq + 1) & 0x7fff_ffff;
+        }
+        while self.sent.len() > 64 {
+            self.sent.remove(0);
+        }
+        v
+    }
+
+    fn flush(&mut self) {
+        self.last_flush = self.now;
+        self.ops.push(format!("flush {}", self.now));
+    }
+
+    /// One housekeeping tick at `t` and the simulated receiver's answers: keepalive echoes on registered
+    /// uplinks, REG3 for the REG2 a re-created socket carried (a torn-down uplink at its next attempt, a NEW
+    /// uplink once its 5 s grace has run out and it is due for a registration attempt).
+    fn tick(&mut self, rng: &mut Rng, t: u64) {
+        self.ops.push(format!("hk {t}"));
+        let mut answers: Vec<(u64, u64, Vec<u8>)> = Vec::new();
+        for i in 0..self.links.len() {
+            let (id, rtt) = (self.links[i].id, rng.range(5, 35));
+            if self.links[i].up {
+                if rng.chance(9, 10) {
+                    answers.push((t + rtt, id, create_keepalive_packet(t).to_vec()));
+                }
+            } else if self.links[i].rereg {
+                if rng.chance(7, 10) {
+                    answers.push((t + rtt, id, SRTLA_TYPE_REG3.to_be_bytes().to_vec()));
+                    self.links[i].up = true;
+                    self.links[i].rereg = false;
+                }
+            } else if t > self.links[i].born + 5000 {
+                self.links[i].born = t;
+                if rng.chance(3, 4) {
+                    answers.push((t + rtt, id, SRTLA_TYPE_REG3.to_be_bytes().to_vec()));
+                    self.links[i].up = true;
+                }
+            }
+        }
+        // in arrival order: all times in the op stream stay non-decreasing
+        answers.sort_by_key(|a| a.0);
+        for (at, id, b) in answers {
+            self.uplink(at, id, &b);
+        }
+        self.now = self.now.max(t + 40);
+    }
+
+    /// Let `ms` of idle time pass: housekeeping ticks 1000 ms apart, flush ticks where something may be queued.
+    fn idle(&mut self, rng: &mut Rng, ms: u64, jitter: u64) {
+        let end = self.now + ms + rng.below(jitter.max(1));
+        while self.next_hk <= end {
+            let t = self.next_hk.max(self.now);
+            self.next_hk = t + 1000;
+            self.now = t;
+            self.tick(rng, t);
+        }
+        self.now = self.now.max(end);
+    }
+
+    /// The registration handshake the way the main generator scripts it: REG_NGP on one uplink, REG2 with the
+    /// group id, a housekeeping tick (broadcast), REG3 on the uplinks.
+    fn handshake(&mut self, rng: &mut Rng) {
+        if self.links.is_empty() {
+            return;
+        }
+        let first = rng.below(self.links.len() as u64) as usize;
+        let fid = self.links[first].id;
+        self.now += rng.below(50);
+        self.uplink(self.now, fid, &SRTLA_TYPE_REG_NGP.to_be_bytes());
+        self.now += rng.below(60);
+        let reg2 = self.reg2.clone();
+        self.uplink(self.now, fid, &reg2);
+        self.broadcast_and_reg3(rng);
+    }
+
+    fn broadcast_and_reg3(&mut self, rng: &mut Rng) {
+        self.now += rng.range(1, 1000);
+        self.ops.push(format!("hk {}", self.now));
+        self.next_hk = self.now + 1000;
+        for i in 0..self.links.len() {
+            if rng.chance(7, 8) {
+                self.now += rng.below(40);
+                let id = self.links[i].id;
+                self.uplink(self.now, id, &SRTLA_TYPE_REG3.to_be_bytes());
+                self.links[i].up = true;
+                self.links[i].rereg = false;
+            }
+        }
+    }
+
+    /// Datagrams "from the receiver" addressed to uplinks that no longer exist: must be ignored.
+    fn ghosts(&mut self, rng: &mut Rng, ids: &[u64]) {
+        for id in ids {
+            for _ in 0..rng.range(1, 3) {
+                let b: Vec<u8> = match rng.below(6) {
+                    0 => create_keepalive_packet(self.now.saturating_sub(20)).to_vec(),
+                    1 => SRTLA_TYPE_REG3.to_be_bytes().to_vec(),
+                    2 => SRTLA_TYPE_REG_ERR.to_be_bytes().to_vec(),
+                    3 if !self.sent.is_empty() => create_ack_packet(&self.sent[self.sent.len().saturating_sub(4)..]).to_vec(),
+                    4 if !self.sent.is_empty() => {
+                        let mut b = vec![0x80, 0x03, 0, 0];
+                        b.extend_from_slice(&rng.pick(&self.sent).to_be_bytes());
+                        b
+                    }
+                    _ => {
+                        // relayable SRT control datagram: would reach the client if the uplink still existed
+                        let mut b = rng.bytes(44);
+                        b[0] = 0x80;
+                        b[1] = 0x06;
+                        b
+                    }
+                };
+                self.uplink(self.now, *id, &b);
+            }
+        }
+    }
+
+    /// ACK / NAK traffic for `nums` arriving on uplink `id`.
+    fn acks_naks(&mut self, rng: &mut Rng, id: u64, nums: &[u32]) {
+        if nums.is_empty() {
+            return;
+        }
+        if rng.chance(2, 3) {
+            let mut b = vec![0x80, 0x03, 0, 0];
+            for _ in 0..rng.range(1, 3) {
+                b.extend_from_slice(&rng.pick(nums).to_be_bytes());
+            }
+            self.uplink(self.now, id, &b);
+        }
+        if rng.chance(2, 3) {
+            let k = rng.range(1, nums.len().min(8) as u64) as usize;
+            self.uplink(self.now, id, &create_ack_packet(&nums[..k]));
+        }
+        if rng.chance(1, 2) {
+            let mut b = rng.bytes(44);
+            b[0] = 0x80;
+            b[1] = 0x02;
+            b[16..20].copy_from_slice(&(nums[nums.len() - 1].wrapping_add(1) & 0x7fff_ffff).to_be_bytes());
+            self.uplink(self.now, id, &b);
+        }
+    }
+
+    /// Make uplink index `j` the scheduler's choice for the next datagrams: the largest window by far.
+    fn steer(&mut self, j: usize) {
+        for k in self.up_idx() {
+            self.ops.push(format!("setlink {k} w={}", if k == j { 60000 } else { 1000 }));
+        }
+    }
+}
+
+/// Uplink-set reloads (SIGHUP: the real `apply_connection_changes`, op `reload`) in a running session: the
+/// generator tracks the link list itself and realises: (a) the selected uplink removed right after client
+/// data (still queued), (b) an uplink removed with packets in flight, their ACKs / NAKs arriving on a survivor,
+/// (c) a reload in the middle of the REG1 / REG2 handshake, (d) an uplink added mid-stream and brought up,
+/// (e) a removed address re-added (new id), (f) the same list (also permuted / with duplicates), (g) all but
+/// one removed, (h) a refused creation, retried later, (i) client data and datagrams addressed to a removed
+/// conn id right after a reload.
+fn gen_reload(rng: &mut Rng, tier: Tier) -> Vec<String> {
+    let n = rng.range(2, 4) as usize;
+    let seed = rng.below(1 << 30);
+    let now: u64 = 1_000_000 + rng.below(500_000);
+    let id = id_from_seed(seed, 0);
+    let mut group_id = id;
+    for b in group_id[128..].iter_mut() {
+        *b = b.wrapping_add(17);
+    }
+    let mut reg2 = SRTLA_TYPE_REG2.to_be_bytes().to_vec();
+    reg2.extend_from_slice(&group_id);
+    let mut g = RlGen {
+        ops: vec![format!("init {n} {seed} {now}")],
+        now,
+        next_hk: now + 1000,
+        last_flush: now,
+        links: (0..n).map(|i| GenLink { id: i as u64 + 1, addr: i as u8 + 1, up: false, born: now, rereg: false }).collect(),
+        next_id: n as u64 + 1,
+        next_addr: n as u8 + 1,
+        gone: Vec::new(),
+        seq: match rng.below(8) {
+            0 => 0,
+            _ => (rng.next_u64() as u32) & 0x7fff_0000,
+        },
+        counter: 1,
+        sent: Vec::new(),
+        reg2,
+    };
+    let cfg_line = |rng: &mut Rng, classic: u64| -> String {
+        format!("cfg classic={classic} quality={} stall={} minif=32 ceil=3000 cto={}", rng.below(2), rng.below(2), rng.pick(&[5000u64, 5000, 5000, 10000]))
+    };
+    match rng.below(3) {
+        0 => {}
+        1 => g.ops.push(cfg_line(rng, 0)),
+        _ => g.ops.push(cfg_line(rng, 1)),
+    }
+    // ---------------- handshake, in half of the cases with a reload in the middle of it (c)
+    let hs = rng.below(4);
+    let first = rng.below(n as u64) as usize;
+    let fid = g.links[first].id;
+    g.now += rng.below(50);
+    g.uplink(g.now, fid, &SRTLA_TYPE_REG_NGP.to_be_bytes());
+    if hs == 2 {
+        // REG1 outstanding on index `first`: remove that uplink or a lower index (1 in 4: any index)
+        let r = if rng.chance(3, 4) { rng.below(first as u64 + 1) as usize } else { rng.below(n as u64) as usize };
+        let mut list = g.list_without(r);
+        if rng.chance(1, 3) {
+            if let Some(a) = g.fresh_addr() {
+                list.push(a);
+            }
+        }
+        g.now += rng.below(30);
+        let removed = g.reload(&list, &[]);
+        // the receiver answers the REG1 it got: on the uplink that no longer exists (ignored), or a REG2
+        // arrives on whatever uplink sits at the pending index now
+        let reg2 = g.reg2.clone();
+        g.now += rng.below(40);
+        if rng.chance(1, 2) {
+            for id in &removed {
+                g.uplink(g.now, *id, &reg2);
+            }
+        }
+        if rng.chance(1, 3) && first < g.links.len() {
+            let id = g.links[first].id;
+            g.uplink(g.now, id, &reg2);
+        }
+        if rng.chance(1, 2) {
+            g.client_data(rng, 2, 2);
+        }
+        // the pending REG1 times out 4 s after it was sent; then the handshake starts over
+        g.idle(rng, 4000, 1500);
+        g.handshake(rng);
+    } else {
+        g.now += rng.below(60);
+        let reg2 = g.reg2.clone();
+        g.uplink(g.now, fid, &reg2);
+        if hs == 3 {
+            // REG2 accepted, broadcast pending: reload before the tick that broadcasts
+            let r = rng.below(n as u64) as usize;
+            let mut list = if rng.chance(3, 4) { g.list_without(r) } else { g.list() };
+            if rng.chance(1, 2) {
+                if let Some(a) = g.fresh_addr() {
+                    list.insert(rng.below(list.len() as u64 + 1) as usize, a);
+                }
+            }
+            g.now += rng.below(30);
+            let removed = g.reload(&list, &[]);
+            if rng.chance(1, 2) {
+                g.ghosts(rng, &removed);
+            }
+        }
+        g.broadcast_and_reg3(rng);
+    }
+    // ---------------- data phase
+    let steps = match tier {
+        Tier::Quick => rng.range(60, 200),
+        Tier::Thorough => rng.range(100, 320),
+    };
+    // the reload scenarios of this case: a shuffled round through (a)..(i) at random steps
+    let mut kinds: Vec<u8> = (0..9).collect();
+    for i in (1..kinds.len()).rev() {
+        kinds.swap(i, rng.below(i as u64 + 1) as usize);
+    }
+    let n_rl = rng.range(5, 10) as usize;
+    let mut at: BTreeMap<u64, u8> = BTreeMap::new();
+    for k in 0..n_rl {
+        at.insert(rng.range(2, steps - 1), kinds[k % kinds.len()]);
+    }
+    let mut retry: Option<(u64, u8)> = None; // (step, address) of a refused creation to retry
+    let mut midstream_handshake_done = false;
+    for step in 0..steps {
+        g.now += match rng.below(10) {
+            0 => 0,
+            1..=5 => rng.below(8),
+            6 => 15,
+            7 | 8 => rng.below(300),
+            _ => rng.below(1200),
+        };
+        while g.now >= g.next_hk {
+            let t = g.next_hk;
+            g.next_hk = t + 1000;
+            g.tick(rng, t);
+        }
+        if g.now.saturating_sub(g.last_flush) >= 15 {
+            g.flush();
+        }
+        if let Some((s, a)) = retry {
+            if step >= s {
+                // (h) second half: the refused creation is retried and succeeds
+                retry = None;
+                if !g.links.iter().any(|l| l.addr == a) {
+                    let mut list = g.list();
+                    list.push(a);
+                    g.reload(&list, &[]);
+                }
+            }
+        }
+        if let Some(kind) = at.get(&step).copied() {
+            let nl = g.links.len();
+            let ups = g.up_idx();
+            if nl == 1 && matches!(kind, 0 | 1 | 2 | 6) && rng.chance(2, 3) {
+                // a single uplink is left: the set grows again by one or two addresses
+                let mut list = g.list();
+                for _ in 0..rng.range(1, 2) {
+                    if let Some(a) = if rng.chance(1, 2) { g.gone_addr(rng).or_else(|| g.fresh_addr()) } else { g.fresh_addr().or_else(|| g.gone_addr(rng)) } {
+                        if !list.contains(&a) {
+                            list.insert(rng.below(list.len() as u64 + 1) as usize, a);
+                        }
+                    }
+                }
+                g.reload(&list, &[]);
+                g.client_data(rng, 1, 3);
+                continue;
+            }
+            match kind {
+                0 if nl >= 2 && !ups.is_empty() => {
+                    // (a) the selected uplink is removed right after client data, before any flush
+                    let j = *rng.pick(&ups);
+                    let steered = rng.chance(2, 3);
+                    if steered {
+                        g.steer(j);
+                    }
+                    let nums = g.client_data(rng, 1, 3);
+                    if rng.chance(1, 2) {
+                        g.ops.push(format!("trk {} {}", nums[0], g.now));
+                    }
+                    let r = if steered { j } else { rng.below(nl as u64) as usize };
+                    let list = g.list_without(r);
+                    let removed = g.reload(&list, &[]);
+                    for s in &nums {
+                        g.ops.push(format!("trk {s} {}", g.now));
+                    }
+                    // (i) anchor gone: selection must still work
+                    g.client_data(rng, 1, 4);
+                    if rng.chance(1, 2) {
+                        g.ghosts(rng, &removed);
+                    }
+                    g.now += 15;
+                    g.flush();
+                }
+                1 if nl >= 2 && !ups.is_empty() => {
+                    // (b) an uplink with packets in flight is removed; ACKs / NAKs for them arrive on a survivor
+                    let j = *rng.pick(&ups);
+                    if rng.chance(2, 3) {
+                        g.steer(j);
+                    }
+                    let nums = g.client_data(rng, 3, 12);
+                    g.now += 15;
+                    g.flush();
+                    g.now += rng.below(6);
+                    let list = g.list_without(j);
+                    let removed = g.reload(&list, &[]);
+                    g.ops.push(format!("trk {} {}", nums[0], g.now));
+                    g.now += rng.below(30);
+                    let surv = g.up_idx();
+                    if !surv.is_empty() {
+                        let id = g.links[*rng.pick(&surv)].id;
+                        g.acks_naks(rng, id, &nums);
+                    }
+                    if rng.chance(1, 2) {
+                        // the receiver also answers on the uplink that carried them: it no longer exists
+                        let l = nums.len().min(4);
+                        for id in &removed {
+                            g.uplink(g.now, *id, &create_ack_packet(&nums[..l]));
+                        }
+                    }
+                    // the client retransmits what was NAKed
+                    if rng.chance(1, 2) {
+                        let s = *rng.pick(&nums);
+                        g.ops.push(format!("client {} {}", g.now, to_hex(&data_packet(s, true, 64, g.counter, rng))));
+                        g.counter += 1;
+                    }
+                }
+                2 if nl >= 2 && !midstream_handshake_done => {
+                    // (c) mid-stream: the receiver forgot the group (REG_ERR everywhere), REG_NGP starts a new
+                    // REG1 / REG2 handshake, and the reload hits while the REG1 is outstanding
+                    midstream_handshake_done = true;
+                    for i in 0..nl {
+                        let id = g.links[i].id;
+                        g.uplink(g.now, id, &SRTLA_TYPE_REG_ERR.to_be_bytes());
+                        if g.links[i].up {
+                            g.links[i].rereg = true;
+                        }
+                        g.links[i].up = false;
+                    }
+                    // a tick so that the manager sees no active uplink (no REG3 answers at this one)
+                    let t = g.next_hk.max(g.now);
+                    g.next_hk = t + 1000;
+                    g.now = t;
+                    g.ops.push(format!("hk {t}"));
+                    g.now += rng.range(5, 200);
+                    let p = rng.below(nl as u64) as usize;
+                    let pid = g.links[p].id;
+                    g.uplink(g.now, pid, &SRTLA_TYPE_REG_NGP.to_be_bytes());
+                    let after_reg2 = rng.chance(1, 2);
+                    let reg2 = g.reg2.clone();
+                    if after_reg2 {
+                        g.now += rng.below(40);
+                        g.uplink(g.now, pid, &reg2);
+                    }
+                    let r = if rng.chance(3, 4) { rng.below(p as u64 + 1) as usize } else { rng.below(nl as u64) as usize };
+                    let mut list = g.list_without(r);
+                    if rng.chance(1, 3) {
+                        if let Some(a) = g.gone_addr(rng).or_else(|| g.fresh_addr()) {
+                            list.push(a);
+                        }
+                    }
+                    g.now += rng.below(30);
+                    let removed = g.reload(&list, &[]);
+                    if !after_reg2 && rng.chance(1, 2) {
+                        for id in &removed {
+                            g.uplink(g.now, *id, &reg2);
+                        }
+                    }
+                    g.client_data(rng, 1, 3);
+                    if after_reg2 {
+                        g.broadcast_and_reg3(rng);
+                    } else {
+                        g.idle(rng, 4000, 1500);
+                        g.handshake(rng);
+                    }
+                }
+                3 | 4 if nl < 5 => {
+                    // (d) an uplink is added mid-stream, (e) preferably at an address removed earlier
+                    let a = if kind == 4 { g.gone_addr(rng).or_else(|| g.fresh_addr()) } else { g.fresh_addr().or_else(|| g.gone_addr(rng)) };
+                    if let Some(a) = a {
+                        let mut list = g.list();
+                        list.insert(rng.below(list.len() as u64 + 1) as usize, a);
+                        if rng.chance(1, 4) {
+                            list.push(a);
+                        }
+                        g.reload(&list, &[]);
+                        g.client_data(rng, 1, 3);
+                        if rng.chance(1, 2) {
+                            // let its start-up grace run out so that housekeeping registers it
+                            g.now += 15;
+                            g.flush();
+                            g.idle(rng, 6100, 2000);
+                        }
+                    }
+                }
+                5 => {
+                    // (f) the same list: as is, permuted, with duplicates
+                    let mut list = g.list();
+                    match rng.below(3) {
+                        0 => {}
+                        1 => {
+                            for i in (1..list.len()).rev() {
+                                list.swap(i, rng.below(i as u64 + 1) as usize);
+                            }
+                        }
+                        _ => {
+                            let d = *rng.pick(&list);
+                            list.insert(rng.below(list.len() as u64 + 1) as usize, d);
+                            list.push(d);
+                        }
+                    }
+                    if rng.chance(1, 2) {
+                        g.client_data(rng, 1, 3);
+                    }
+                    // refusing an address that needs no socket changes nothing
+                    let fails: Vec<u8> = if rng.chance(1, 4) { vec![list[0]] } else { Vec::new() };
+                    g.reload(&list, &fails);
+                    g.client_data(rng, 1, 3);
+                }
+                6 if nl >= 2 => {
+                    // (g) all but one removed
+                    let keep = if !ups.is_empty() && rng.chance(3, 4) { *rng.pick(&ups) } else { rng.below(nl as u64) as usize };
+                    if rng.chance(1, 2) {
+                        g.client_data(rng, 1, 6);
+                    }
+                    let a = g.links[keep].addr;
+                    let list = if rng.chance(1, 4) { vec![a, a] } else { vec![a] };
+                    let removed = g.reload(&list, &[]);
+                    g.client_data(rng, 1, 4);
+                    if rng.chance(1, 2) {
+                        g.ghosts(rng, &removed);
+                    }
+                    if rng.chance(1, 3) {
+                        g.ops.push(format!("failnext {}", removed[0])); // no such uplink any more: refused
+                    }
+                }
+                7 if nl < 5 => {
+                    // (h) one creation is refused (binder error); retried a few steps later
+                    if let Some(a) = g.fresh_addr().or_else(|| g.gone_addr(rng)) {
+                        let mut list = g.list();
+                        list.push(a);
+                        let mut fails = vec![a];
+                        // now and then together with a creation that succeeds and a removal
+                        if rng.chance(1, 3) {
+                            if let Some(b) = g.fresh_addr() {
+                                list.insert(0, b);
+                            }
+                        }
+                        if rng.chance(1, 4) && list.len() > 2 {
+                            list.remove(rng.below(g.links.len() as u64) as usize);
+                        }
+                        if rng.chance(1, 4) {
+                            fails.push(g.links[0].addr);
+                        }
+                        g.reload(&list, &fails);
+                        retry = Some((step + rng.range(1, 10), a));
+                    }
+                }
+                _ => {
+                    // (i) some uplink goes (or, with a single uplink, is replaced); client data and datagrams
+                    // for the removed conn id follow at once
+                    let r = rng.below(nl as u64) as usize;
+                    let mut list = g.list_without(r);
+                    if list.is_empty() || rng.chance(1, 4) {
+                        if let Some(a) = g.fresh_addr().or_else(|| g.gone_addr(rng)) {
+                            list.push(a);
+                        }
+                    }
+                    if list.is_empty() {
+                        list = g.list();
+                    }
+                    if rng.chance(1, 3) {
+                        let id = g.links[r].id;
+                        g.ops.push(format!("failnext {id}"));
+                    }
+                    let removed = g.reload(&list, &[]);
+                    g.ghosts(rng, &removed);
+                    g.client_data(rng, 1, 5);
+                    g.ghosts(rng, &removed);
+                }
+            }
+            continue;
+        }
+        let nl = g.links.len();
+        let ups = g.up_idx();
+        let i = rng.below(nl as u64) as usize;
+        let lid = g.links[i].id;
+        match rng.below(40) {
+            0..=15 => {
+                let nums = g.client_data(rng, 1, 10);
+                if rng.chance(1, 3) {
+                    g.ops.push(format!("trk {} {}", nums[nums.len() - 1], g.now));
+                }
+                if rng.chance(3, 4) && !ups.is_empty() {
+                    let id = g.links[*rng.pick(&ups)].id;
+                    let k = rng.range(1, 10).min(g.sent.len() as u64) as usize;
+                    let l: Vec<u32> = g.sent[g.sent.len() - k..].to_vec();
+                    g.now += 1;
+                    g.uplink(g.now, id, &create_ack_packet(&l));
+                }
+            }
+            16..=19 if g.links[i].up && !g.sent.is_empty() => {
+                let k = rng.range(1, 8) as usize;
+                let l: Vec<u32> = (0..k).map(|_| *rng.pick(&g.sent)).collect();
+                g.uplink(g.now, lid, &create_ack_packet(&l));
+            }
+            20..=22 if g.links[i].up && !g.sent.is_empty() => {
+                let mut b = rng.bytes(44);
+                b[0] = 0x80;
+                b[1] = 0x02;
+                b[16..20].copy_from_slice(&rng.pick(&g.sent).to_be_bytes());
+                g.uplink(g.now, lid, &b);
+            }
+            23..=25 if g.links[i].up && !g.sent.is_empty() => {
+                let mut b = vec![0x80, 0x03, 0, 0];
+                for _ in 0..rng.range(1, 3) {
+                    let s = *rng.pick(&g.sent);
+                    if rng.chance(1, 3) {
+                        b.extend_from_slice(&(s | 0x8000_0000).to_be_bytes());
+                        b.extend_from_slice(&(s + rng.below(4) as u32).to_be_bytes());
+                    } else {
+                        b.extend_from_slice(&s.to_be_bytes());
+                    }
+                }
+                g.uplink(g.now, lid, &b);
+            }
+            26 | 27 if g.links[i].up => {
+                let ts = g.now.saturating_sub(rng.range(1, 300));
+                g.uplink(g.now, lid, &create_keepalive_packet(ts));
+            }
+            28 => g.ops.push(format!("failnext {lid}")),
+            29 => {
+                g.uplink(g.now, lid, &SRTLA_TYPE_REG_ERR.to_be_bytes());
+                if g.links[i].up {
+                    g.links[i].rereg = true;
+                }
+                g.links[i].up = false;
+            }
+            30 | 31 if !g.sent.is_empty() => {
+                let s = *rng.pick(&g.sent);
+                g.ops.push(format!("trk {s} {}", g.now));
+            }
+            32 if !g.gone.is_empty() => {
+                let id = rng.pick(&g.gone).0;
+                g.ghosts(rng, &[id]);
+            }
+            33 => {
+                let c = rng.below(2);
+                g.ops.push(cfg_line(rng, c));
+            }
+            34 if rng.chance(1, 2) => g.ops.push(format!("failbind {lid}")),
+            35 => {
+                g.ops.push(format!("client {} {}", g.now, to_hex(&control_packet(*rng.pick(&[0x8002u16, 0x8003, 0x8000, 0x8006]), 32, g.counter, rng))));
+                g.counter += 1;
+            }
+            36 if !g.links[i].up => {
+                // a late REG3 for an uplink that is still registering
+                g.uplink(g.now, lid, &SRTLA_TYPE_REG3.to_be_bytes());
+                g.links[i].up = true;
+                g.links[i].rereg = false;
+            }
+            _ => {}
+        }
+    }
+    g.now += 15;
+    g.flush();
+    g.ops
 }
 
 /// A long single-link history of routed packets each answered by a cumulative SRT ACK and of keepalive
